@@ -7,6 +7,8 @@ Value specs as in c08_core (["T", shape, dtype, pattern] tensor, ["S", v] python
 Prints torch eager's answer, the traced ONNX graph and what ORT / onnx.reference compute for it.
 
     /venv/bin/python -m vf.props.c08_repro --e2e relu atan2 f32 f32     # module g(f(x), y) through torch.onnx.export
+    /venv/bin/python -m vf.props.c08_repro --e2e-nn avg_pool2d '{"x":[1,2,5,6],"dt":"f32","a":{"kernel_size":2,"divisor_override":5}}'
+                                                                        # nn.functional module (c08_e2e_nn) through torch.onnx.export
 """
 from __future__ import annotations
 
@@ -25,6 +27,14 @@ def main(argv):
         x = K.make_value(["T", [2, 3], xdt, "a"])
         args = (x,) if g == "-" else (x, K.make_value(["T", [2, 3], ydt, "b"]))
         m = c08_e2e._module(torch, f, g)
+        print("eager :", m(*args))
+        print("result:", c08_e2e.run_module(m, args))
+        return 0
+    if argv and argv[0] == "--e2e-nn":
+        from vf.props import c08_e2e, c08_e2e_nn
+        cs = json.loads(argv[2])
+        cs["m"] = argv[1]
+        m, args = c08_e2e_nn.build(torch, cs)
         print("eager :", m(*args))
         print("result:", c08_e2e.run_module(m, args))
         return 0
